@@ -11,7 +11,8 @@ ASSUMPTIONS = ["futures: proved under 'resting ordinary closes stay within yeste
 
 def run(ctx):
     corrs = tstream.make_corrs(ctx, ops=["apply_trade", "_on_before_trading", "_on_settlement"])
-    vc = {"position": ctx.corr("PositionValidator", "every recorded decision of the real position validator vs model `positionVeto` on the same order and closable quantities")}
+    vc = {"position": ctx.corr("PositionValidator", "every recorded decision of the real position validator vs model `positionVeto` on the same order and closable quantities"),
+          "closable": ctx.corr("closable / today_closable", "the real position's closable and today_closable at every validation vs model `posClosable/posTodayClosable` from the position's fields and the open closing orders")}
     tstream.stream(ctx, ctx.n(60, 3000), corrs, [monitors.c10_monitor], extra_sync=lambda c, tr, ix: sync_misc.validators_sync(c, vc, tr, ix))
 
 
